@@ -16,6 +16,7 @@ theorem plain_stripE : ∀ e : Expr, plainE (stripE e) = true
   | .str _ => by simp [stripE, plainE]
   | .var _ => by simp [stripE, plainE]
   | .bin _ a b => by simp [stripE, plainE, plain_stripE a, plain_stripE b]
+  | .assign a b => by simp [stripE, plainE, plain_stripE a, plain_stripE b]
   | .call f _ args => by simp [stripE, plainE, plain_stripE f, plain_stripEs args]
   | .newE _ _ args => by simp [stripE, plainE, plain_stripEs args]
   | .arrow _ ps _ body => by
@@ -54,6 +55,10 @@ theorem plain_stripMember : ∀ (m m' : Member), stripMember m = some m' → pla
       intro x _; exact plain_stripParam x
   | .indexSig k kt vt, _, h => by simp [stripMember] at h
   | .declareField _ _, _, h => by simp [stripMember] at h
+  | .staticBlock body, m', h => by
+      simp only [stripMember, Option.some.injEq] at h
+      subst h
+      simp [plainMember, plain_stripSs body]
 theorem plain_stripMs : ∀ ms : List Member, plainMs (stripMs ms) = true
   | [] => by simp [stripMs, plainMs]
   | m :: ms => by
@@ -116,6 +121,9 @@ theorem stripE_of_plain : ∀ e : Expr, plainE e = true → stripE e = e
   | .str _, _ => by simp [stripE]
   | .var _, _ => by simp [stripE]
   | .bin _ a b, h => by
+      simp only [plainE, Bool.and_eq_true] at h
+      simp [stripE, stripE_of_plain a h.1, stripE_of_plain b h.2]
+  | .assign a b, h => by
       simp only [plainE, Bool.and_eq_true] at h
       simp [stripE, stripE_of_plain a h.1, stripE_of_plain b h.2]
   | .call f targs args, h => by
@@ -184,6 +192,9 @@ theorem stripMember_of_plain : ∀ m : Member, plainMember m = true → stripMem
         map_stripParam_of_plain ps h.1.1.1.1.2, plainRet_eq ret h.1.1.1.2, h.1.1.2]
   | .indexSig _ _ _, h => by simp [plainMember] at h
   | .declareField _ _, h => by simp [plainMember] at h
+  | .staticBlock body, h => by
+      simp only [plainMember] at h
+      simp [stripMember, stripSs_of_plain body h]
 theorem stripMs_of_plain : ∀ ms : List Member, plainMs ms = true → stripMs ms = ms
   | [], _ => by simp [stripMs]
   | m :: ms, h => by
